@@ -91,12 +91,12 @@ func hMkHeap(minN, maxN, kinds int) *hHeap {
 	h.add(b, bm)
 	n := nondetIntRange(minN, maxN)
 	spare := nondetIntRange(0, 1)
-	var a *list
+	var a List
 	am := make([]mval, n)
 	if n >= 2 && nondetIntRange(0, 1) == 1 {
 		// NewListOf pre-state: every slot holds the same value (and, in the implementation, possibly one shared wrapper)
 		v := nondetInt()
-		a = NewListOf(v, n+spare).(*list)
+		a = NewListOf(v, n+spare)
 		for i := 0; i < spare; i++ {
 			a.Pop()
 		}
